@@ -211,6 +211,35 @@ func genCase(long bool) func(t *rapid.T) harness.Case {
 	}
 }
 
+// genLongDoc: documents of many root blocks that need several refills of the
+// streaming buffer, read in large pieces (whatever the parser asks for, or
+// fixed sizes around the 8 KiB chunk), so that blocks handed out early are
+// still held by the caller while the buffer behind them is refilled.
+func genLongDoc(t *rapid.T) harness.Case {
+	var c harness.Case
+	c.In = gen.LongDoc(20000, 120000).Draw(t, "in")
+	switch rapid.IntRange(0, 4).Draw(t, "lsched") {
+	case 0: // as much as the parser asks for
+	case 1, 2:
+		sz := []int{8192, 8191, 4096, 8000, 1000, 12000, 100}[rapid.IntRange(0, 6).Draw(t, "chunk")]
+		var s []int
+		for n := 0; n < len(c.In); n += sz {
+			s = append(s, sz)
+		}
+		c.SetL("sched", s)
+	default:
+		c.SetL("sched", gen.Schedule(t, c.In))
+	}
+	if rapid.Bool().Draw(t, "eofdata") {
+		c.SetI("eofdata", 1)
+	}
+	if rapid.IntRange(0, 3).Draw(t, "hasfault") == 0 {
+		c.SetI("fault", rapid.IntRange(0, len(c.In)).Draw(t, "fk"))
+		c.SetI("err", rapid.IntRange(0, len(errValues)-1).Draw(t, "err"))
+	}
+	return c
+}
+
 func genSmall(t *rapid.T) harness.Case {
 	for tries := 0; ; tries++ {
 		var in []byte
@@ -232,6 +261,7 @@ func TestProperty(t *testing.T) {
 	harness.Run(t, harness.Plan{Prop: "C08", Checks: []harness.Check{
 		{Name: "schedule_fault", Quick: 50000, Thorough: 600000, Gen: genCase(false), Prop: prop, Rule: rule},
 		{Name: "long", Quick: 150, Thorough: 2000, Gen: genCase(true), Prop: prop, Rule: "long mode 6-30 KB (buffer grows past the 8 KiB window): " + rule},
+		{Name: "long_documents", Quick: 120, Thorough: 1500, Gen: genLongDoc, Prop: prop, Rule: "documents of 20-120 KB made of hundreds of root blocks (generated pieces repeated in turn), read as much at a time as the parser asks for or in fixed chunks around 8 KiB, all blocks held until the end and compared then: " + rule},
 		{Name: "enumerate", Quick: 600, Thorough: 8000, Gen: genSmall, Prop: propEnum, Rule: "inputs truncated to <= 48 bytes; for each, EVERY fault point k in 0..len (single read and one-byte reads, error with and without data) and EVERY two-cut schedule is run; non-trivial = input of >= 4 bytes"},
 	}})
 }
